@@ -1,6 +1,7 @@
 import PkgProofs.Lemmas.MarkerEval
 import PkgProofs.Lemmas.MarkerParse
 import PkgProofs.Lemmas.MarkerLexParse
+import PkgProofs.Lemmas.MarkerWf
 /-!
 # C07 — Marker evaluation follows PEP 508 semantics
 
@@ -12,7 +13,7 @@ External: `Mk.Ext` (`specMatch`, `canonName`) — arbitrary in every theorem.
 All statements quantify over arbitrary nesting depth, list length, strings and environments.
 -/
 namespace C07
-open Py Mk Pep508 MkEval MkParse MkFmt MkLex MkLexP
+open Py Mk Pep508 MkEval MkParse MkFmt MkLex MkLexP MkWf
 set_option linter.unusedSimpArgs false
 
 /-! ### 1. The `groups` algorithm computes the value of the or-of-ands formula the list denotes -/
@@ -299,6 +300,34 @@ theorem marker_of_text_refines (X : Ext) (hc : ∀ s, X.canonName (X.canonName s
   unfold mkMarker
   rw [toks_eq, parse_spell_print (lst e) e.sem (formulaOf_lst e) (by rw [atoms_lst]; exact hcan)]
   rfl
+
+/-! ### 7. Every constructed marker -/
+
+/-- **Whatever text `Marker(src)` accepts** (any layout, nesting, quote style, variable spelling), the
+constructed marker denotes a formula `f`, and `evaluate` returns the value of `f` under the model's
+comparison function in the built environment; if moreover every comparison of `f` is between a defined
+variable and a literal, that value is the statement's (`sem`). -/
+theorem constructed_marker_refines (X : Ext) (src : Str) (m : List M) (h : mkMarker X src = .ok m)
+    (dflt : List (Str × Str)) (supplied : Option Env) (env : Env) (hb : buildEnv dflt supplied = .ok env) :
+    ∃ f, formulaOf m = some f ∧ evaluate X dflt supplied m = f.eval (evalAtom X env) ∧
+      ((∀ a ∈ atoms f, (atomSem X (effEnv dflt supplied) a).isSome) →
+        evaluate X dflt supplied m = f.eval (sem X dflt supplied)) := by
+  unfold mkMarker at h
+  cases hp : parse src with
+  | error e => simp [hp, Except.map] at h
+  | ok l =>
+    simp only [hp, Except.map, Except.ok.injEq] at h
+    subst h
+    obtain ⟨hf, _⟩ := parse_wf src l hp
+    obtain ⟨f, hf⟩ := Option.isSome_iff_exists.mp hf
+    have hf' : formulaOf (normalizeExtra X l) = some (MkParse.Formula.map (normAtom X) f) := by
+      have := fOfL_norm X l
+      rw [show fOfL l = some f from hf] at this
+      simpa [formulaOf] using this
+    refine ⟨_, hf', ?_, fun hd => evaluate_refines X dflt supplied _ _ hf' env hb hd⟩
+    unfold evaluate
+    simp only [hb, bind, Except.bind]
+    exact groups_is_or_of_ands _ _ _ hf'
 
 /-! ### Non-vacuity: the hypotheses above are satisfiable by a non-trivial value -/
 section Examples
